@@ -299,7 +299,9 @@ def C(x):
     if isinstance(x, np.ndarray) and x.ndim == 0:
         return C(x.item())
     if isinstance(x, (float, np.floating)):
-        if x != x or x in (float('inf'), float('-inf')):
+        if x != x:
+            return NAN
+        if x in (float('inf'), float('-inf')):
             raise Inconclusive(f"non-finite constant {x} entered the symbolic computation")
         return Sym(Rat.const(Fraction(float(x))))
     return Sym(Rat.const(Fraction(x)))
@@ -383,6 +385,12 @@ class Sym:
         if not isinstance(b, (Sym, SymBool) + NUM):
             return NotImplemented
         b = C(b)
+        if isinstance(b, NaNSym):
+            return NAN
+        if not b.re.n.t and not b.im.n.t:
+            return a
+        if not a.re.n.t and not a.im.n.t:
+            return b
         r = Sym(a.re + b.re, a.im + b.im)
         if E.zdag:
             (ar, ai), (br, bi) = a.z(), b.z()
@@ -418,7 +426,15 @@ class Sym:
         if not isinstance(b, (Sym, SymBool) + NUM):
             return NotImplemented
         b = C(b)
+        if isinstance(b, NaNSym):
+            return NAN
+        if (not a.re.n.t and not a.im.n.t) or (not b.re.n.t and not b.im.n.t):
+            return ZERO
         if a.im.is_zero() and b.im.is_zero():
+            if not b.re.d and len(b.re.n.t) == 1 and b.re.n.t.get(()) == 1:
+                return a
+            if not a.re.d and len(a.re.n.t) == 1 and a.re.n.t.get(()) == 1:
+                return b
             r = Sym(a.re * b.re)
         else:
             r = Sym(a.re * b.re - a.im * b.im, a.re * b.im + a.im * b.re)
@@ -441,8 +457,12 @@ class Sym:
         if not isinstance(b, (Sym, SymBool) + NUM):
             return NotImplemented
         b = C(b)
+        if isinstance(b, NaNSym):
+            return NAN
         if b.is_zero():
-            raise ZeroDivisionError("symbolic division by exact zero")
+            if a.is_zero():
+                return NAN  # 0/0 is nan in IEEE arithmetic (numpy warns, does not raise)
+            raise Inconclusive("division of a non-zero value by exact zero (inf is not modelled)")
         if not b.is_const():
             # domain event: divisor must be non-zero
             if b.im.is_zero():
@@ -565,6 +585,8 @@ class Sym:
     # ---- comparisons ----------------------------------------------------------------------
     def _cmp(a, b, op):
         b = C(b)
+        if isinstance(b, NaNSym):
+            return SymBool(z3.BoolVal(False), False)
         if not (a.im.is_zero() and b.im.is_zero()):
             # numpy compares complex lexicographically; cola never relies on it
             raise Inconclusive("ordering comparison of complex symbolic values")
@@ -610,6 +632,8 @@ class Sym:
         if not isinstance(b, (Sym, SymBool) + NUM):
             return NotImplemented
         b = C(b)
+        if isinstance(b, NaNSym):
+            return SymBool(z3.BoolVal(False), False)
         d = a - b
         if d.is_zero():
             return SymBool(z3.BoolVal(True), True)
@@ -788,6 +812,61 @@ class PyComplexSym(PyNum, complex):
         o.sym = sym
         return o
 
+
+ZERO = Sym(R0)
+
+
+class NaNSym(Sym):
+    """IEEE nan: absorbing for arithmetic, every ordering / equality comparison is False (!= is True)"""
+    __slots__ = ()
+
+    def _n(a, *args, **kw):
+        return NAN
+
+    __add__ = __radd__ = __sub__ = __rsub__ = __mul__ = __rmul__ = __truediv__ = __rtruediv__ = __pow__ = _n
+    __neg__ = __pos__ = __abs__ = sqrt = conjugate = conj = _n
+
+    @property
+    def real(a):
+        return NAN
+
+    @property
+    def imag(a):
+        return NAN
+
+    def is_zero(a):
+        return False
+
+    def is_const(a):
+        return True
+
+    def const_value(a):
+        return float('nan')
+
+    @property
+    def v(a):
+        return float('nan')
+
+    def _cmp(a, b, op):
+        return SymBool(z3.BoolVal(False), False)
+
+    def __eq__(a, b):
+        return SymBool(z3.BoolVal(False), False)
+
+    def __ne__(a, b):
+        return SymBool(z3.BoolVal(True), True)
+
+    def z(s):
+        return z3.Real("nan!"), None
+
+    def __float__(a):
+        return float('nan')
+
+    def __repr__(a):
+        return "S(nan)"
+
+
+NAN = NaNSym(R0)
 
 OPS = {
     'lt': lambda x, y: x < y,
